@@ -372,7 +372,7 @@ func (a *errAnalysis) exploreErrorEdge(ifi *ssa.If, start *ssa.BasicBlock, errId
 				bad(ErrConverted, "function has no error result; error edge returns a value at "+a.c.InstrPos(t))
 				return
 			}
-			op := t.Results[errIdx]
+			op := retOperand(t, errIdx)
 			if a.derived(op) {
 				return
 			}
